@@ -14,16 +14,17 @@
 // This file owns the C02 corpus and generator: runs are weighted towards QUAL != everyone
 // (members inactive or disqualified before phase 6) and towards reconstruction of a qualified
 // member's key in phases 10-12 (silent or disqualified from phase 7 on), composed with faulty
-// reveal messages, duplicates and arrival-order shuffles.
+// reveal messages, duplicates and arrival-order shuffles, and towards reconstruction with CORRUPT
+// revealers (gjkrdrv.Collusion: a corrupt dealer sends a corrupt accomplice a share no honest member
+// can check, the accomplice keeps quiet in phase 4, the dealer leaves, the accomplice reveals in
+// phase 10), the only runs that reach the share-judging branches of recoverMisbehavedShares.
 package main
 
 import (
-	"bytes"
 	"encoding/json"
 	"flag"
 	"fmt"
 	"os"
-	"os/exec"
 	"runtime"
 	"sort"
 	"strings"
@@ -34,8 +35,9 @@ import (
 )
 
 type (
-	RunDesc = gjkrdrv.RunDesc
-	Attack  = gjkrdrv.Attack
+	RunDesc    = gjkrdrv.RunDesc
+	Attack     = gjkrdrv.Attack
+	Accomplice = gjkrdrv.Accomplice
 )
 
 func ops(n int) []uint64 {
@@ -99,6 +101,29 @@ func corpus() []RunDesc {
 			Attacks: []Attack{a("silent-from", 8, 5, 0, 0)}},
 		{ID: "c02-inactive-phase10", N: 4, T: 1, Corrupt: []int{3}, Ops: ops(4), OrderSeed: 41, Shuffle: true,
 			Attacks: []Attack{a("silent-from", 10, 3, 0, 0)}},
+		// reconstruction with a CORRUPT revealer (phase 11, recoverMisbehavedShares). 5 sends its
+		// accomplice 4 a share that does not fit 5's commitments, 4 does not accuse, 5 is silent after
+		// phase 3, 4 reveals the key it used with 5: the share must be dropped (4 is disqualified) and the
+		// key of 5 reconstructed from the three honest shares only
+		{ID: "c02-collude-inconsistent-share-revealed", N: 5, T: 2, Corrupt: []int{4, 5}, Ops: ops(5), OrderSeed: 42, Shuffle: true,
+			Attacks: gjkrdrv.Collusion(5, Attack{Name: "silent-from", Phase: 4}, Accomplice{K: 4, Share: "sh-wrong-value", Reveal: "rev-extra"})},
+		// the accomplice sits between the honest seats, the dealer is disqualified for bad points in phase 8
+		{ID: "c02-collude-inconsistent-share-bad-points", N: 5, T: 2, Corrupt: []int{1, 3}, Ops: ops(5), OrderSeed: 43, Shuffle: true,
+			Attacks: gjkrdrv.Collusion(1, Attack{Name: "pts-mutate", Phase: 7, K: 1}, Accomplice{K: 3, Share: "sh-wrong-value", Val: 3, Reveal: "rev-extra"})},
+		// the accomplice reveals a key that is not the one it published: disqualified, no share
+		{ID: "c02-collude-wrong-key-revealed", N: 5, T: 2, Corrupt: []int{2, 5}, Ops: ops(5), OrderSeed: 44, Shuffle: true,
+			Attacks: gjkrdrv.Collusion(2, Attack{Name: "silent-from", Phase: 7}, Accomplice{K: 5, Share: "sh-wrong-value", Reveal: "rev-wrong-for"})},
+		// the share for the accomplice cannot be decrypted at all
+		{ID: "c02-collude-garbage-share-revealed", N: 5, T: 2, Corrupt: []int{3, 4}, Ops: ops(5), OrderSeed: 45, Shuffle: true,
+			Attacks: gjkrdrv.Collusion(3, Attack{Name: "silent-from", Phase: 7}, Accomplice{K: 4, Share: "sh-garbage", Reveal: "rev-extra"})},
+		// control: the accomplice's share is valid and it reveals correctly: its share IS interpolated
+		// (four points for a polynomial of degree two) and nobody is disqualified
+		{ID: "c02-collude-control-valid-share", N: 5, T: 2, Corrupt: []int{4, 5}, Ops: ops(5), OrderSeed: 46, Shuffle: true,
+			Attacks: gjkrdrv.Collusion(5, Attack{Name: "silent-from", Phase: 4}, Accomplice{K: 4, Reveal: "rev-extra"})},
+		// two accomplices, one with an inconsistent share, one with a valid share
+		{ID: "c02-collude-two-accomplices", N: 7, T: 3, Corrupt: []int{2, 3, 6}, Ops: ops(7), OrderSeed: 47, Shuffle: true,
+			Attacks: gjkrdrv.Collusion(2, Attack{Name: "silent-from", Phase: 7},
+				Accomplice{K: 3, Share: "sh-wrong-value", Val: 1, Reveal: "rev-extra"}, Accomplice{K: 6, Share: "sh-wrong-value", Reveal: "rev-extra"})},
 		// known defect C01-a (DESIGN section 7): agreement fails, the run is outside C02's premise and
 		// must be judged Agree (spec_ok = true by in_scope = false)
 		{ID: "c02-out-of-scope-C01a", N: 5, T: 2, Corrupt: []int{1}, Ops: ops(5), OrderSeed: 13,
@@ -120,6 +145,66 @@ var shrinking = []struct {
 // ... and that disturb the reveal / reconstruction phases
 var revealing = []string{"rev-omit", "rev-extra", "rev-bad-key", "rev-self", "rev-range", "rev-none", "dup",
 	"foreign-index", "drop", "silent-from", "wrong-session"}
+
+// ways a qualified dealer leaves so that its individual key has to be reconstructed
+var exits = []Attack{{Name: "silent-from", Phase: 4}, {Name: "silent-from", Phase: 7}, {Name: "silent-from", Phase: 7},
+	{Name: "drop", Phase: 7}, {Name: "pts-mutate", Phase: 7}, {Name: "pts-short", Phase: 7}, {Name: "wrong-session", Phase: 7}}
+
+// collusionRun draws a reconstruction run with corrupt revealers: a corrupt dealer, one or more
+// corrupt accomplices (n >= 5 so that t >= 2), each with its own kind of share and of reveal.
+func collusionRun(r *lib.Rng, id string, maxN int) RunDesc {
+	n := r.Range(5, maxN)
+	t := (n - 1) / 2
+	nc := 2
+	if t > 2 && r.Chance(1, 2) {
+		nc = r.Range(2, t)
+	}
+	perm := r.Perm(n)
+	corrupt := make([]int, nc)
+	for i := range corrupt {
+		corrupt[i] = perm[i] + 1
+	}
+	o := ops(n)
+	if r.Chance(1, 4) { // one operator holds every corrupt seat
+		mn := corrupt[0]
+		for _, c := range corrupt {
+			if c < mn {
+				mn = c
+			}
+		}
+		for _, c := range corrupt {
+			o[c-1] = uint64(mn)
+		}
+	}
+	d := RunDesc{ID: id, N: n, T: t, Ops: o, OrderSeed: r.U64() % 1000000, Shuffle: !r.Chance(1, 10)}
+	exit := exits[r.Intn(len(exits))]
+	exit.K = r.Intn(4)
+	var acs []Accomplice
+	for _, k := range corrupt[1:] {
+		a := Accomplice{K: k, Val: int64(r.Intn(5))}
+		switch x := r.Intn(10); {
+		case x < 6:
+			a.Share = "sh-wrong-value"
+		case x < 7:
+			a.Share = "sh-garbage"
+		case x < 8:
+			a.Share = "sh-wrong-key"
+		} // else: a valid share (control)
+		switch x := r.Intn(10); {
+		case x < 7:
+			a.Reveal = "rev-extra"
+		case x < 8:
+			a.Reveal = "rev-wrong-for"
+		case x < 9:
+			a.Reveal = "rev-none"
+		} // else: whatever the accomplice's own object reveals
+		acs = append(acs, a)
+	}
+	d.Attacks = gjkrdrv.Collusion(corrupt[0], exit, acs...)
+	sort.Ints(corrupt)
+	d.Corrupt = corrupt
+	return d
+}
 
 // focusedRun draws a run aimed at this property: up to t corrupt seats; the first reconstructs
 // (when the plan says so), the others shrink QUAL or disturb the reveal phase.
@@ -180,22 +265,11 @@ func runAll(self string, descs []RunDesc) []lib.Case {
 		go func() {
 			defer wg.Done()
 			for i := range jobs {
-				in, _ := json.Marshal(descs[i])
-				cmd := exec.Command(self, "--child")
-				cmd.Stdin = bytes.NewReader(in)
-				var stderr bytes.Buffer
-				cmd.Stderr = &stderr
-				b, err := cmd.Output()
-				var c lib.Case
-				if err == nil {
-					err = json.Unmarshal(b, &c)
-				}
-				if err != nil {
-					tail := stderr.String()
-					if len(tail) > 600 {
-						tail = tail[:600]
-					}
-					c = lib.Case{ID: descs[i].ID, Coq: "DRIVER_ERROR", Out: "child crashed: " + tail}
+				// a child that dies inside an Initiate call is re-run with that call skipped (the
+				// seat is observed as failed there); see gjkrdrv.RunChild
+				c, crashed := gjkrdrv.RunChild(self, descs[i])
+				if crashed {
+					gjkrdrv.Unattributed.Add(1)
 				}
 				out[i] = c
 			}
@@ -245,13 +319,31 @@ func emit(em *lib.Emitter, d RunDesc, c lib.Case) {
 	}
 	var names []string
 	recon, shrink := false, false
+	isCorrupt := map[int]bool{}
+	for _, c := range d.Corrupt {
+		isCorrupt[c] = true
+	}
+	// a corrupt seat that reveals for another corrupt seat whose key the honest members reconstruct
+	collusion, badShare := false, false
+	for _, a := range d.Attacks {
+		if a.Phase == 10 && strings.HasPrefix(a.Name, "rev-") && isCorrupt[a.Target] && a.Target != a.By {
+			collusion = true
+		}
+		if a.Phase == 3 && strings.HasPrefix(a.Name, "sh-") && isCorrupt[a.Target] {
+			badShare = true
+		}
+	}
 	for _, a := range d.Attacks {
 		names = append(names, fmt.Sprintf("%s@%d", a.Name, a.Phase))
 		if marked[a.By] {
-			if a.Phase == 7 {
+			// a seat that withholds its phase-4 message is inactive from phase 5 on but its shares
+			// were accepted in phase 4: it is in QUAL and its key is reconstructed
+			leaves4 := a.Phase == 4 && (a.Name == "silent-from" || a.Name == "drop" || a.Name == "wrong-session")
+			if a.Phase == 7 || leaves4 {
 				recon = true
 			}
-			if a.Phase <= 4 {
+			unseen := a.Phase == 3 && strings.HasPrefix(a.Name, "sh-") && isCorrupt[a.Target] // no honest member sees it
+			if a.Phase <= 4 && !leaves4 && !unseen && a.Name != "acc-quiet" {
 				shrink = true
 			}
 		}
@@ -272,9 +364,15 @@ func emit(em *lib.Emitter, d RunDesc, c lib.Case) {
 	if len(marked) == 0 {
 		em.Tally("class:QUAL=everyone")
 	}
+	if collusion && recon {
+		em.Tally("class:reconstruction-with-corrupt-revealer")
+		if badShare {
+			em.Tally("class:reconstruction-with-corrupt-revealer(unverifiable-share-to-accomplice)")
+		}
+	}
 	c.Nontrivial = fin >= d.T+1 && len(marked) > 0
 	c.Sig = map[string]interface{}{"attack": strings.Join(names, "+"), "corrupt": len(d.Corrupt),
-		"n": d.N, "t": d.T, "reconstruction": recon, "qual_shrinks": shrink}
+		"n": d.N, "t": d.T, "reconstruction": recon, "qual_shrinks": shrink, "corrupt_revealer": collusion}
 	em.Case(c)
 }
 
@@ -329,6 +427,9 @@ func main() {
 				// the C01 generator: every deviation family, 1-3 composed (the families of the known
 				// agreement defect only every 9th run)
 				descs = append(descs, gjkrdrv.RandomRun(rng.Fork("c01-"+id), id, maxN, i%9 == 8))
+			} else if i%3 == 1 {
+				// reconstruction with corrupt revealers (dealer + accomplices)
+				descs = append(descs, collusionRun(rng.Fork("col-"+id), id, maxN))
 			} else {
 				descs = append(descs, focusedRun(rng.Fork("c02-"+id), id, maxN))
 			}
@@ -343,4 +444,8 @@ func main() {
 		return
 	}
 	em.Close(rule, nil)
+	if n := gjkrdrv.Unattributed.Load(); n > 0 {
+		fmt.Fprintf(os.Stderr, "%d child process(es) died outside any Initiate call\n", n)
+		os.Exit(3)
+	}
 }
